@@ -3,6 +3,8 @@ import ConfModel.Model.ServerTimeout
 import ConfModel.Model.ServerChecks
 import ConfModel.Spec.ServerChecks
 import ConfModel.Model.FeedbackLine
+import ConfModel.Model.FeedbackStream
+import ConfModel.Model.ServerOverlap
 namespace ConfModel.Driver.C12
 open Lean ConfModel.Driver ConfModel.ServerChecks ConfModel.ServerChecksSpec
 open ConfModel.ServerTimeout (Bytes Proto)
@@ -209,6 +211,278 @@ def obsOfReal (i : RealObs) : Obs :=
     seen := if i.seenTO > 0 then [("Connect-Timeout-Ms", "?"), ("Grpc-Timeout", "?")] else [],
     status := i.status, error := !i.ok }
 
+/-! ### overlapping requests (op `overlap`) and whole stderr streams (op `stream`), c12overlap.go -/
+
+/-- run-length coded text: `[[text, repeat], ...]` -/
+def unrle (j : Json) : String :=
+  String.join ((arr j).map fun seg =>
+    match arr seg with
+    | [t, n] =>
+      let t := str t
+      let k := nat n
+      if k == 1 then t else
+      match t.toList with
+      | [c] => String.ofList (List.replicate k c)
+      | _ => String.join (List.replicate k t)
+    | _ => "")
+
+/-- `c12ApplyPad`: the first entry for `key` gets `pad` appended, or `(key, dflt ++ pad)` is added -/
+def padEntry (l : Hdrs) (key dflt pad : String) : Hdrs :=
+  if l.any (·.1 == key) then
+    (l.foldl (fun (acc : Hdrs × Bool) kv =>
+      if !acc.2 && kv.1 == key then (acc.1 ++ [(kv.1, kv.2 ++ pad)], true) else (acc.1 ++ [kv], acc.2)) ([], false)).1
+  else l ++ [(key, dflt ++ pad)]
+
+def padReq (r : Req) (kind : String) (n : Nat) : Req :=
+  let pad := String.ofList (List.replicate n 'x')
+  match kind with
+  | "codec" =>
+    if r.method == "GET" then { r with query := padEntry r.query "encoding" "proto" pad }
+    else { r with headers := padEntry r.headers "Content-Type" "application/proto" pad }
+  | "compression" =>
+    if r.method == "GET" then { r with query := padEntry r.query "compression" "gzip" pad } else
+    let ct := ((r.headers.filter (·.1 == "Content-Type")).getLast?.map (·.2)).getD ""
+    if hasPrefix ct "application/grpc" then { r with headers := padEntry r.headers "Grpc-Encoding" "gzip" pad }
+    else if hasPrefix ct "application/connect+" then { r with headers := padEntry r.headers "Connect-Content-Encoding" "gzip" pad }
+    else { r with headers := padEntry r.headers "Content-Encoding" "gzip" pad }
+  | "expect" => { r with headers := padEntry r.headers "X-Expect-Codec" "1" pad }
+  | "timeout" =>
+    let name := if r.headers.any (fun kv => kv.1 == "X-Expect-Protocol" && kv.2 == "1") then "Connect-Timeout-Ms" else "Grpc-Timeout"
+    { r with headers := r.headers ++ [(name, "1" ++ String.ofList (List.replicate n '0'))] }
+  | "method" => { r with method := r.method ++ String.ofList (List.replicate n 'X') }
+  | _ => r
+
+structure OvReq where
+  e : Aspects
+  a : Aspects
+  name : String
+  req : Req
+  padded : Bool
+
+/-- `c12OvRender` -/
+def ovReqOf (j : Json) : Option OvReq :=
+  match aspects (field j "e"), aspects (field j "a") with
+  | some e, some a =>
+    let name := str (field j "name")
+    let r0 := render e name a (variant (field j "v"))
+    let r1 : Req := { r0 with headers := if name == "" then r0.headers.drop 1 else r0.headers, trailers := nat (field j "trailers") }
+    let pad := field j "pad"
+    some { e := e, a := a, name := name, padded := !isNull pad,
+           req := if isNull pad then r1 else padReq r1 (str (field pad "kind")) (nat (field pad "n")) }
+  | _, _ => none
+
+def allSome {α} : List (Option α) → Option (List α)
+  | [] => some []
+  | none :: _ => none
+  | some a :: rest => (allSome rest).map (a :: ·)
+
+/-- `c12NormSched` -/
+def normSched (n : Nat) (sched : List (List Nat)) : List (List Nat) :=
+  let step := fun (acc : List Nat × List (List Nat)) (ev : List Nat) =>
+    match ev with
+    | kind :: ids =>
+      if kind > 2 || ids.isEmpty then acc else
+      let cand := if kind == 2 then ids else ids.take 1
+      let (st, sel) := cand.foldl (fun (p : List Nat × List Nat) i =>
+        if i ≥ n then p else
+        let cur := p.1.getD i 0
+        if kind != 1 && cur == 0 then (p.1.set i 1, p.2 ++ [i])
+        else if kind == 1 && cur == 1 then (p.1.set i 2, p.2 ++ [i])
+        else p) (acc.1, [])
+      if sel.isEmpty then (st, acc.2) else (st, acc.2 ++ [kind :: sel])
+    | [] => acc
+  let (st, out) := sched.foldl step (List.replicate n 0, [])
+  out ++ ((List.range n).filter (fun i => st.getD i 0 == 1)).map (fun i => [1, i])
+
+open ConfModel.ServerOverlap in
+def todoOf (s : Srv) (i : Nat) : List Act := ((s.frames.find? (·.id == i)).map (·.todo)).getD []
+
+open ConfModel.ServerOverlap in
+/-- request `i` arrives and runs until it is inside the wrapped handler -/
+def enterM (reqs : List Req) (s : Srv) (i : Nat) : Srv × List Line :=
+  let s1 := (stepSrv reqs s (.arrive i)).1
+  run reqs s1 (List.replicate (untilHandler (todoOf s1 i)) (.step i))
+
+open ConfModel.ServerOverlap in
+/-- the wrapped handler of request `i` returns and the call runs to its end -/
+def leaveM (reqs : List Req) (s : Srv) (i : Nat) : Srv × List Line :=
+  run reqs s (List.replicate (todoOf s i).length (.step i))
+
+open ConfModel.ServerOverlap in
+def eventM (reqs : List Req) (s : Srv) : List Nat → Srv × List Line
+  | 1 :: i :: _ => leaveM reqs s i
+  | _ :: ids => ids.foldl (fun (p : Srv × List Line) i => let (s', l) := enterM reqs p.1 i; (s', p.2 ++ l)) (s, [])
+  | [] => (s, [])
+
+structure OvStep where
+  ev : List Nat
+  lines : List (String × String)
+  raw : List ErrLine
+  stuck : Bool
+
+def ovStepOf (j : Json) : OvStep :=
+  { ev := natList (field j "ev"), stuck := bool (field j "stuck"), raw := errLines (field j "raw"),
+    lines := (arr (field j "lines")).map fun l => match strList l with | [n, c] => (n, c) | _ => ("", "other:?") }
+
+open ConfModel.ServerOverlap in
+def handleOverlap (inp impl : Json) : Verdict :=
+  match allSome ((arr (field inp "reqs")).map ovReqOf) with
+  | none => bad "overlap: bad tuples"
+  | some qs =>
+    let reqs := qs.map (·.req)
+    let nameOf := fun (i : Nat) => ((reqs[i]?).map testName).getD ""
+    let sched := normSched reqs.length ((arr (field inp "sched")).map natList)
+    let steps := (arr (field impl "steps")).map ovStepOf
+    let robs := (arr (field impl "reqs")).map obsOf
+    let batch := batchOf (qs.map (·.name))
+    -- the model, event by event
+    let (_, mlines) := sched.foldl (fun (p : Srv × List (List Line)) ev =>
+      let (s', l) := eventM reqs p.1 ev; (s', p.2 ++ [l])) (({} : Srv), [])
+    let stepAgrees := fun (ev : List Nat) (ml : List Line) (st : OvStep) =>
+      st.ev == ev && !st.stuck && st.raw.all (lineAgrees batch) &&
+      (match ev with
+       | 2 :: ids =>
+         ids.all (fun i => (st.lines.filter (·.1 == nameOf i)).map (·.2) == ((linesOf i ml).map (·.fb.toString))) &&
+         st.lines.all (fun l => ids.any (fun i => nameOf i == l.1))
+       | _ => st.lines == ml.map (fun l => (l.name, l.fb.toString)))
+    let agree := steps.length == sched.length && mlines.length == sched.length &&
+      ((sched.zip (mlines.zip steps)).all fun (ev, ml, st) => stepAgrees ev ml st) &&
+      robs.length == reqs.length
+    let model := toJson (mlines.map fun ls => ls.map fun l => [toString l.id, l.name, l.fb.toString])
+    -- the property, on the implementation's output
+    if steps.length != sched.length || robs.length != reqs.length then
+      { agree := false, holds := false, model := model, why := "observations missing" } else
+    match steps.find? (·.stuck) with
+    | some st => { agree := false, holds := false, model := model,
+                   why := s!"event {st.ev}: a request neither reached the wrapped handler nor returned" }
+    | none =>
+    -- (1) every line is printed under the test name of the request that printed it
+    let misnamed := (sched.zip steps).filterMap fun (ev, st) =>
+      match ev with
+      | 2 :: ids =>
+        let names := ids.map nameOf
+        if st.lines.all (fun l => l.1 != "" && names.contains l.1) &&
+           st.raw.all (fun l => l.kind == "record" && names.contains l.to &&
+             FeedbackLine.attributedTo batch l.to.toList (l.raw.toList ++ ['\n'])) then none
+        else some s!"requests {ids} (test cases {names}) arrived together; feedback printed meanwhile: {st.lines}"
+      | k :: i :: _ =>
+        if st.lines.all (fun l => l.1 == nameOf i && l.1 != "") && linesNamed batch (nameOf i) st.raw then none
+        else some (s!"request {i} (test case {(nameOf i).quote}) " ++ (if k == 1 then "left the wrapped handler" else "arrived") ++
+          s!" while {(sched.takeWhile (· != ev)).length} earlier events had other requests under way; feedback printed by it: {st.lines}" ++
+          (if st.raw.isEmpty then "" else s!" stderr as attributed by the runner: {st.raw.map fun l => (l.raw, l.kind, l.to)}"))
+      | _ => none
+    match misnamed with
+    | w :: _ => { agree := agree, holds := false, model := model,
+                  why := "feedback not attributed to the test case of the request it is about: " ++ w }
+    | [] =>
+    -- (2) per request: what was reported for it is what the property demands of it alone
+    let fbOf := fun (i : Nat) => (sched.zip steps).flatMap fun (ev, st) =>
+      match ev with
+      | 2 :: ids => if ids.contains i then (st.lines.filter (·.1 == nameOf i)).map (·.2) else []
+      | _ :: j :: _ => if j == i then st.lines.map (·.2) else []
+      | _ => []
+    let arrivedBefore := fun (i : Nat) =>
+      ((sched.takeWhile (fun ev => !(ev.head? != some 1 && (ev.drop 1).contains i))).flatMap fun ev =>
+        if ev.head? == some 1 then [] else (ev.drop 1).map nameOf).filter (· != "")
+    let started := fun (i : Nat) => sched.any (fun ev => ev.head? != some 1 && (ev.drop 1).contains i)
+    let perReq := (List.range reqs.length).filterMap fun i =>
+      if !started i then none else
+      match qs[i]?, robs[i]? with
+      | some q, some o =>
+        let fb := fbOf i
+        let (g, gwhy) := generalHolds batch (arrivedBefore i) q.req { o with fb := fb, named := true, lines := [] }
+        if !g then some s!"request {i} (test case {q.name.quote}): {gwhy}; feedback {fb}" else
+        let fbs := (fb.map fbOfClass).filter (fun f => !notAnAspect f)
+        if q.name != "" && q.a.realisable && !flagsExactly q.e q.a fbs then
+          some s!"request {i} (test case {q.name.quote}): feedback {fb} does not name exactly the deviating aspects {reprStr (mismatches q.e q.a)}"
+        else none
+      | _, _ => some "observation missing"
+    match perReq with
+    | w :: _ => { agree := agree, holds := false, model := model, why := w }
+    | [] =>
+      let overlapping := (sched.foldl (fun (p : Nat × Bool) ev =>
+        let inside := if ev.head? == some 1 then p.1 - (ev.length - 1) else p.1 + (ev.length - 1)
+        (inside, p.2 || (p.1 > 0 && !(ev.head? == some 1 && p.1 == 1)))) (0, false)).2
+      { agree := agree, holds := true, nontrivial := overlapping, model := model,
+        cls := (if overlapping then "overlapping" else "sequential") ++
+          (if steps.any (fun st => !st.lines.isEmpty) then "/feedback" else "/silent") }
+
+open ConfModel.FeedbackStream ConfModel.ServerRunner in
+def chunksOf (k : Nat) : Nat → List Char → List (List Char)
+  | 0, _ => []
+  | fuel + 1, l => if l.isEmpty then [] else l.take k :: chunksOf k fuel (l.drop k)
+
+structure StreamLine where
+  text : String
+  cls : String
+
+open ConfModel.FeedbackStream ConfModel.ServerRunner in
+def handleStream (inp impl : Json) : Verdict :=
+  match allSome ((arr (field inp "reqs")).map ovReqOf) with
+  | none => bad "stream: bad tuples"
+  | some qs =>
+    let reqs := qs.map (·.req)
+    let outs := serve [] reqs
+    let ireqs := arr (field impl "reqs")
+    let ilines : List (List StreamLine) := ireqs.map fun r =>
+      (arr (field r "lines")).map fun l => { text := unrle (field l "line"), cls := str (field l "cls") }
+    let hang := bool (field impl "hang")
+    let forwarded := (arr (field impl "forwarded")).map unrle
+    let sidebandI : List (String × String) := (arr (field impl "sideband")).map fun p =>
+      match arr p with | [n, m] => (str n, unrle m) | _ => ("", "")
+    -- the batch as the harness builds it
+    let batchS : List String := ((List.range qs.length).zip qs).foldl (fun (acc : List String) (i, q) =>
+      acc ++ [if q.name == "" || acc.contains q.name then s!"C12/filler-{i}" else q.name]) [] ++ [decoy]
+    let batch := batchS.map String.toList
+    -- the model: the checks request by request, the reader on the stream as written
+    let stream : List Char := (ilines.flatMap fun ls => ls.flatMap fun l => l.text.toList ++ ['\n'])
+    let chunk := if nat (field inp "chunk") == 0 then 4096 else nat (field inp "chunk")
+    let (fw, recs) := if stream.length / chunk ≤ 20000 then readStreamChunked batch (chunksOf chunk stream.length stream)
+      else FeedbackLine.readStream batch stream
+    let agreeChecks := outs.length == ireqs.length &&
+      ((outs.zip (ireqs.zip ilines)).all fun (o, r, ls) =>
+        bool (field r "served") && bool (field r "called") == !o.rejected &&
+        ls.map (·.cls) == o.feedback.map (fun f => match f with | .other _ => "other" | f => f.toString))
+    let agreeReader := !hang && forwarded.length == fw.length &&
+      batchS.all (fun n => ((sidebandI.find? (·.1 == n)).map (·.2)) == (sideband recs n.toList).map String.ofList) &&
+      sidebandI.all (fun p => batchS.contains p.1)
+    let model := Json.mkObj [("fb", toJson (outs.map fun o => o.feedback.map Fb.toString)),
+      ("recorded", toJson (batchS.filterMap fun n => (sideband recs n.toList).map fun m => [n, toString m.length])),
+      ("forwarded", fw.length)]
+    -- the property on the implementation's output
+    let longest := (ilines.flatMap fun ls => ls.map (·.text.length)).foldl max 0
+    let cls := (if bool (field inp "pipe") then "pipe" else "recorded") ++
+      (if longest > 65536 then "/line>64KiB" else if longest > 4096 then "/line>4KiB" else "/short-lines")
+    if hang then
+      { agree := false, holds := false, model := model, cls := cls,
+        why := s!"the batch did not end: the reference server is stalled on its stderr (longest feedback line {longest} bytes); requests served {(ireqs.filter fun r => bool (field r "served")).length} of {reqs.length}" } else
+    if ireqs.length != reqs.length || ireqs.any (fun r => !bool (field r "served")) then
+      { agree := false, holds := false, model := model, cls := cls, why := "a request of the batch was not served" } else
+    if !forwarded.isEmpty then
+      { agree := agreeChecks && agreeReader, holds := false, model := model, cls := cls,
+        why := s!"{forwarded.length} feedback line(s) were not attributed to any test case by the runner (first: {(forwarded.headD "").take 120})" } else
+    let named := (qs.zip ilines).filterMap fun (q, ls) =>
+      if ls.all (fun l => q.name != "" && l.text.startsWith (q.name ++ ": ")) then none
+      else some s!"a feedback line of test case {q.name.quote} is not printed under its name"
+    match named with
+    | w :: _ => { agree := agreeChecks && agreeReader, holds := false, model := model, cls := cls, why := w }
+    | [] =>
+    -- every test case that got feedback is flagged by the runner, with the last message printed for it
+    let flagged := (asSet (qs.map (·.name))).filterMap fun n =>
+      let mine := ((qs.zip ilines).filter (fun p => p.1.name == n)).flatMap (·.2)
+      match mine.getLast? with
+      | none => if (sidebandI.find? (·.1 == n)).isSome then some s!"test case {n.quote} got no feedback from the server but the runner holds some" else none
+      | some l =>
+        let expect := String.ofList (trim ((trim l.text.toList).drop (n.length + 2)))
+        match sidebandI.find? (·.1 == n) with
+        | none => some s!"the server printed {mine.length} feedback line(s) for test case {n.quote} (longest line of the stream: {longest} bytes) but the runner recorded none"
+        | some (_, m) => if m == expect then none else
+            some s!"the runner holds {(m.take 80).toString.quote} for test case {n.quote}, the last feedback printed for it is {(expect.take 80).toString.quote} (longest line of the stream: {longest} bytes)"
+    match flagged with
+    | w :: _ => { agree := agreeChecks && agreeReader, holds := false, model := model, cls := cls, why := w }
+    | [] => { agree := agreeChecks && agreeReader, holds := true, model := model, cls := cls,
+              nontrivial := ilines.any (fun ls => !ls.isEmpty) }
+
 def handle : Handler := fun op inp impl =>
   if !(isNull (field impl "panic")) then
     { agree := false, holds := false, why := "panic: " ++ str (field impl "panic") } else
@@ -290,10 +564,12 @@ def handle : Handler := fun op inp impl =>
       let r0 := render e name a v
       let toHdr := timeoutHeaderOf (protoOf (a.protocol.num : Nat))
       let timeout := field inp "timeout"
-      let r : Req := { r0 with
+      let r1 : Req := { r0 with
         headers := (if name == "" then r0.headers.drop 1 else r0.headers) ++
           (if isNull timeout then [] else [(toHdr, asciiString (unhex (str timeout)))])
         trailers := nat (field inp "trailers") }
+      let pad := field inp "pad"
+      let r : Req := if isNull pad then r1 else padReq r1 (str (field pad "kind")) (nat (field pad "n"))
       let reqs := List.replicate times r
       let outs := serveChain path [] reqs
       let obs := (arr impl).map realObsOf
@@ -308,15 +584,21 @@ def handle : Handler := fun op inp impl =>
       if obs.any (fun i => i.proto != a.version.num) then
         bad s!"real: the exchange did not use HTTP/{a.version.num}" else
       let (g, gwhy) := serveHolds batch [] reqs (obs.map obsOfReal)
-      let exact := obs.all fun i => flagsExactly e a ((i.fb.map fbOfClass).filter (fun f => !notAnAspect f))
+      -- (an expectation header made malformed on purpose is no expectation: judged by agree and by
+      -- the general statements only)
+      let exact := (!isNull pad && str (field pad "kind") == "expect") ||
+        obs.all fun i => flagsExactly e a ((i.fb.map fbOfClass).filter (fun f => !notAnAspect f))
       let dev := mismatches e a
       { agree := agree, holds := g && exact, nontrivial := true, model := model,
         why := if !g then s!"{proc} over HTTP/{a.version.num}: " ++ gwhy else if !exact then
           s!"{proc} over HTTP/{a.version.num}: feedback {obs.map (·.fb)} does not name exactly the deviating aspects {reprStr dev}" else "",
-        cls := s!"{proc}/http{a.version.num}/" ++ (if name == "" then "no-name" else if !name.startsWith "Real/" then "odd-name" else if !isNull timeout then "timeout"
+        cls := s!"{proc}/http{a.version.num}/" ++ (if name == "" then "no-name" else if !isNull pad then "long-feedback" else if !name.startsWith "Real/" then "odd-name" else if !isNull timeout then "timeout"
           else if times > 1 then "repeat" else if nat (field inp "trailers") > 0 then "trailers"
           else if dev.isEmpty then "match" else "deviating") }
     | _, _ => bad "real: bad tuples"
+  | "overlap" => handleOverlap inp impl
+  | "realoverlap" => handleOverlap inp impl
+  | "stream" => handleStream inp impl
   | "render" =>
     match aspects (field inp "e"), aspects (field inp "a") with
     | some e, some a =>
